@@ -144,7 +144,7 @@ Qed.
 Lemma parse_fields_inr a pfs : parse_fields a = inr pfs ->
   exists sh, a = AStructPtr sh /\ parse_list (visible sh) = inr pfs /\ pfs <> [].
 Proof.
-  destruct a as [sh|sh|]; cbn [parse_fields]; try discriminate.
+  destruct a as [sh|sh| | |sh]; cbn [parse_fields]; try discriminate.
   destruct (parse_list (visible sh)) as [e|[|pf r]] eqn:E; try discriminate.
   intros [= <-]. exists sh. repeat split; auto. discriminate.
 Qed.
@@ -182,6 +182,18 @@ Qed.
 (* rejected up front *)
 Lemma reject_not_ptr sh : parse_fields (AStruct sh) = inl ENotPtrStruct /\ parse_fields ANonStruct = inl ENotPtrStruct.
 Proof. split; reflexivity. Qed.
+
+(* the untyped nil, and a nil pointer to a struct of ANY shape (tagged, untagged, badly tagged) *)
+Lemma reject_nil sh : parse_fields ANil = inl ENotPtrStruct /\ parse_fields (ANilStructPtr sh) = inl ENilPtr.
+Proof. split; reflexivity. Qed.
+
+(* every argument that is not a non-nil pointer to a struct is refused, whatever it is *)
+Lemma reject_unless_struct_ptr a : (forall sh, a <> AStructPtr sh) -> exists e, parse_fields a = inl e.
+Proof. intros H. destruct a as [sh|sh| | |sh]; cbn [parse_fields]; eauto. contradiction (H sh). reflexivity. Qed.
+
+(* conversely, only a non-nil struct pointer is ever accepted *)
+Lemma accepted_is_struct_ptr a pfs : parse_fields a = inr pfs -> exists sh, a = AStructPtr sh.
+Proof. destruct a as [sh|sh| | |sh]; cbn [parse_fields]; try discriminate. eauto. Qed.
 
 Lemma reject_of_field sh l f e : In (l, f) (visible sh) -> parse_field l f = Some (inl e) ->
   exists e', parse_fields (AStructPtr sh) = inl e'.
